@@ -499,7 +499,8 @@ impl AsRef<[u64]> for MemoryMap {
 impl Drop for MemoryMap {
     fn drop(&mut self) {
         unsafe {
-            let _ = libc::munmap(self.ptr.cast::<libc::c_void>(), self.len);
+            // `munmap` takes the length in bytes, while `self.len` is in elements.
+            let _ = libc::munmap(self.ptr.cast::<libc::c_void>(), bits::words_to_bytes(self.len));
         }
     }
 }
